@@ -168,8 +168,9 @@ def parse_wbxml_header(b):
 NS_DECL = {"o-ex": "http://odrl.net/1.1/ODRL-EX"}
 
 
-def xml_for(root, ns=None, doctype=None):
-    """returns (xml text, Expat localName of the root)"""
+def xml_for(root, ns=None, doctype=None, dtname=None, bare=False):
+    """returns (xml text, Expat localName of the root); dtname = name written in the DOCTYPE (default: the root's),
+    bare = a DOCTYPE without external identifier"""
     attrs = ""
     local = root
     if ":" in root:
@@ -180,9 +181,11 @@ def xml_for(root, ns=None, doctype=None):
         attrs = ' xmlns="%s"' % ns
         local = ns + "|" + root
     head = '<?xml version="1.0"?>'
-    if doctype is not None:
+    if bare:
+        head += '<!DOCTYPE %s>' % (dtname or root)
+    elif doctype is not None:
         pub, sys_ = doctype
-        head += '<!DOCTYPE %s %s>' % (root, ('PUBLIC "%s" "%s"' % (pub, sys_)) if pub is not None else ('SYSTEM "%s"' % sys_))
+        head += '<!DOCTYPE %s %s>' % (dtname or root, ('PUBLIC "%s" "%s"' % (pub, sys_)) if pub is not None else ('SYSTEM "%s"' % sys_))
     return head + "<%s%s/>" % (root, attrs), local
 
 
@@ -236,6 +239,15 @@ def xml_cases(tj, rng):
         add("xml-root", l, xml, local, None, None, want, key=("xml-root:" + root) if ":" in root else None)
         xml, local = xml_for(root, doctype=("-//NO//SUCH//EN", "no-such.dtd"))
         add("xml-root-unknown-doctype", l, xml, local, "-//NO//SUCH//EN", "no-such.dtd", want, key=("xml-root:" + root) if ":" in root else None)
+        # the NAME written in a DOCTYPE selects nothing: a DOCTYPE without (known) identifiers leaves the choice to the root
+        # element, also when its name is the root name of a language registered earlier
+        xml, local = xml_for(root, bare=True)
+        add("xml-root-bare-doctype", l, xml, local, None, None, want, key=("xml-root:" + root) if ":" in root else None)
+        if ":" not in root:
+            xml, local = xml_for(root, doctype=("-//NO//SUCH//EN", "no-such.dtd"), dtname=o["root"])
+            add("xml-root-doctype-names-other-language", l, xml, local, "-//NO//SUCH//EN", "no-such.dtd", want)
+            xml, local = xml_for(root, bare=True, dtname=o["root"])
+            add("xml-root-bare-doctype-names-other-language", l, xml, local, None, None, want)
         ns = rows(tj, l, "ns")
         if ns:
             ns0 = ns[0][0]
@@ -245,6 +257,10 @@ def xml_cases(tj, rng):
             add("xml-nsroot", l, xml, local, None, None, want)
             xml, local = xml_for(root, ns=ns0.swapcase())
             add("xml-nsroot-case", l, xml, local, None, None, want)
+            xml, local = xml_for(root, ns=ns0, bare=True)
+            add("xml-nsroot-bare-doctype", l, xml, local, None, None, want)
+            xml, local = xml_for(root, ns=ns0, doctype=("-//NO//SUCH//EN", "no-such.dtd"))
+            add("xml-nsroot-unknown-doctype", l, xml, local, "-//NO//SUCH//EN", "no-such.dtd", want)
     # a namespaced root whose namespace opens no table is recognised by the local name of its root element
     # (fix 8a5d5ba: <MetInf xmlns="syncml:metinf">, DRMREL o-ex:rights, and any foreign namespace)
     for l in langs:
